@@ -71,9 +71,25 @@ func RenderDebug(prog *core.Program, set, def string, max int, filter string) {
 		typ = "Function"
 	}
 	n := 0
-	runs, trunc, err := st.Enumerate(set, def, cfg, mkDotOf("generator/golang", typ, "x"), func(r *tmpl.Rendering, w *tmpl.World) {
-		if filter != "" && !strings.Contains(r.Valuation, filter) {
-			return
+	stub := map[string]bool{}
+	for _, s := range strings.Split(os.Getenv("VERIF_STUB"), ",") {
+		if s != "" {
+			stub[s] = true
+		}
+	}
+	if l := os.Getenv("VERIF_LISTS"); l != "" {
+		cfg.ListCounts = nil
+		for _, x := range strings.Split(l, ",") {
+			var n int
+			fmt.Sscan(x, &n)
+			cfg.ListCounts = append(cfg.ListCounts, n)
+		}
+	}
+	runs, trunc, err := st.EnumerateStub(set, def, stub, cfg, mkDotOf("generator/golang", typ, "x"), func(r *tmpl.Rendering, w *tmpl.World) {
+		for _, f := range strings.Fields(filter) {
+			if !strings.Contains(r.Valuation, f) {
+				return
+			}
 		}
 		if n < max {
 			fmt.Printf("=== %s [%s] libs=%v err=%v\n%s\n", r.Unit, r.Valuation, r.Libs, r.Err, r.Text)
